@@ -135,6 +135,29 @@ def metadata_extraction(ctx, rep, rule: str) -> None:
     rep.ob(rule, "fsdp-metadata-extraction", ok, fi.loc(c), detail, sample=True)
 
 
+def metadata_is_a_record(ctx, rep, rule: str) -> None:
+    """The recovery reads `shape`, `start_idx`, `end_idx` of FSDPParameterMetadata as the user's description of the original
+    tensor: the record class hands back what it was given — no method of the class (a `__post_init__`, a property setter, a
+    `__setattr__`) stores into its declared fields, and no declared field is shadowed by a property."""
+    repo = ctx.repo
+    ci = repo.cls("distributed_shampoo.shampoo_types:FSDPParameterMetadata")
+    names = {f[0] for f in ci.fields}
+    rep.floor(rule, "declared fields of FSDPParameterMetadata", len(names & {"shape", "start_idx", "end_idx"}), 3)
+    bad = []
+    for mname, fi in ci.methods.items():
+        if mname in names or mname == "__setattr__" or mname == "__getattribute__":
+            bad.append(f"{mname} (shadows / intercepts a field)")
+        for n in ast.walk(fi.node):
+            tg = n.targets if isinstance(n, ast.Assign) else ([n.target] if isinstance(n, (ast.AugAssign, ast.AnnAssign)) else [])
+            for t in tg:
+                for x in ast.walk(t):
+                    if isinstance(x, ast.Attribute) and isinstance(x.value, ast.Name) and x.value.id == "self" and x.attr in names:
+                        bad.append(f"{mname} stores self.{x.attr}")
+            if isinstance(n, ast.Call) and ((isinstance(n.func, ast.Name) and n.func.id == "setattr") or (isinstance(n.func, ast.Attribute) and n.func.attr == "__setattr__")):
+                bad.append(f"{mname} calls setattr")
+    rep.ob(rule, "metadata-is-a-record", not bad, f"{ci.module.relpath}:{ci.node.lineno}", "FSDPParameterMetadata returns the shape / start / end it was constructed with (the split recovery interprets them as the original tensor's)" + (f": {bad[:3]}" if bad else ""), sample=True)
+
+
 def run(ctx, rep) -> None:
     rep.rule("C07.5", "compile_fsdp_parameter_metadata pairs every field with its flat-parameter table and converts FSDP's inclusive end index to the exclusive one the recovery expects")
     rep.attempt("metadata_extraction", metadata_extraction, ctx, rep, "C07.5")
@@ -145,6 +168,7 @@ def run(ctx, rep) -> None:
     for sub, text in (("1", "recovered blocks are views of the shard"), ("2", "recovery guards"), ("4", "recursion of the recovery is well-founded and three-way")):
         rep.rule(f"C07.2.{sub}", text + " (same rule as C15." + sub + ")")
     rep.attempt("recovery_agreement", recovery_agreement, ctx, rep, "C07.1", [FSDP, HSDP])
+    rep.attempt("metadata_is_a_record", metadata_is_a_record, ctx, rep, "C07.1")
     from .c05 import merged_dims_of_the_viewed_tensor
 
     rep.attempt("merged_dims_of_the_viewed_tensor", merged_dims_of_the_viewed_tensor, ctx, rep, "C07.1")
@@ -157,6 +181,10 @@ def run(ctx, rep) -> None:
     from .c04 import _change_guards
 
     rep.attempt("_change_guards", _change_guards, ctx, rep, "C07.3")
+    from .c04 import global_selector_is_ownership_independent, selector_construction
+
+    rep.attempt("selector_construction", selector_construction, ctx, rep, "C07.3")
+    rep.attempt("global_selector_is_ownership_independent", global_selector_is_ownership_independent, ctx, rep, "C07.3")
     rep.attempt("collective_uniformity", collective_uniformity, ctx, rep, "C07.3", {"HSDPDistributor"})
     rep.attempt("buffer_protocol", buffer_protocol, ctx, rep, "C07.3", HSDP)
     from .common import utility_semantics
